@@ -295,5 +295,5 @@ class C15(InterpProp):
     def known_signature(self, finding, case, res):
         if finding.get('signature') == 'notify-event-sent':
             spoof = any("notify('event sent'" in (t.action or '') for sc in case.aux['charts'] for t in sc.transitions)
-            return spoof and all(v.startswith('op ') and (': callable ' in v or 'differ from those announced' in v or ': more calls of the bound callables' in v) for v in res.violations)
+            return spoof and all(v.startswith('op ') and (': callable ' in v or 'differ from those announced' in v or ': more calls of the bound callables' in v or 'as sent; delivered to the' in v) for v in res.violations)
         return False
